@@ -570,7 +570,10 @@ class Lib(object):
         if name in ("c13_v", "c13_vd"):
             # Leave path-specific bit patterns in libffi's register-image area first, so that a
             # variadic argument passed without its default promotion cannot agree by accident.
-            self.func(pi, "c13_v")(0x44444444, *[ffi.cast("double", x) for x in PRIMER[pi]])
+            try:
+                self.func(pi, "c13_v")(0x44444444, *[ffi.cast("double", x) for x in PRIMER[pi]])
+            except Exception:
+                pass                 # a path that cannot even do this shows up in the real call below
         n0 = self.ncalls.value
         ffi.errno = 77
         try:
@@ -786,7 +789,7 @@ def run_function(L, fn, tier, res):
             ent[1] += 1
             if len(ent[2]) < 2:
                 ent[2].append(detail_of(fn, specs, kw, d, obs, labs))
-        elif res["cases"] % 997 == 0:
+        if res["cases"] % 997 == 1:
             res["samples"].append({"fn": fn_decl(fn), "args": repr(specs)[:200], "outcome": repr(obs[0][0])[:120],
                                    "errno": obs[0][2]})
 
